@@ -129,6 +129,62 @@ async def through_server(chk: Check, rng: random.Random):
         await q.finish()
 
 
+async def server_history(chk: Check, rng: random.Random, sid: int, n: int, nev: int):
+    """Arrivals / departures / refusals through the real MysqlServer._client_connected_cb with a small sequence
+    space; after every event the registry must equal the set of live connections (model: arrival = add,
+    refused arrival = no change, departure = remove of that connection's id)."""
+    ctl = small_control(n, sid)
+    srv = mkserver((RecSession() for _ in range(10 ** 6)), control=ctl)
+    lines, impl, live = [f"ctl newn {n} 16 {sid}"], ["ok"], []
+    for _ in range(nev):
+        if live and rng.random() < 0.4:
+            p = live.pop(rng.randrange(len(live)))
+            if rng.random() < 0.5:
+                await p.cmd(b"\x01")
+            await p.finish()
+            await settle(10)
+            lines.append(f"ctl rm {p.greeting['cid']}")
+            impl.append("ok")
+            chk.count("srv:depart")
+        else:
+            p = Peer(srv)
+            g = await p.greet()
+            lines.append("ctl add")
+            if g and g[0][1][:1] == b"\x0a":
+                await p.send(pkt(1, __import__("lib").hs_response("u")))
+                p.take()
+                live.append(p)
+                impl.append(str(p.greeting["cid"]))
+                chk.count("srv:admit")
+            else:
+                code = parse_err(g[0][1], proto41=False)[0] if g and g[0][1][:1] == b"\xff" else None
+                impl.append("full" if code == 1040 else "refused-%s" % code)
+                await p.finish()
+                await settle(10)
+                chk.count("srv:refuse")
+        lines.append("ctl live")
+        reg = sorted(ctl._connections)
+        impl.append(" ".join(map(str, reg)))
+        want = sorted(q.greeting["cid"] for q in live)
+        if reg != want:
+            chk.fail("registry differs from the set of live connections", dict(server_id=sid, n=n, registry=reg, live=want, history=lines[-60:]))
+            break
+        if len(set(want)) != len(want):
+            chk.fail("duplicate id among live connections", dict(ids=want, history=lines[-60:]))
+            break
+    # KILL addresses the right one: kill the oldest survivor through the newest
+    if len(live) >= 2:
+        victim, killer = live[0], live[-1]
+        await killer.cmd(b"\x03KILL %d" % victim.greeting["cid"])
+        await settle()
+        if not victim.done() or any(q.done() for q in live[1:]):
+            chk.fail("KILL <id> did not terminate exactly the addressed connection", dict(history=lines[-60:], victim=victim.greeting["cid"]))
+    for q in live:
+        await q.finish()
+    chk.case(("srv", sid, n, tuple(lines)), nontrivial="full" in impl, sample=dict(server_id=sid, n=n, events=lines[1:9], impl=impl[1:9]) if rng.random() < 0.2 else None)
+    return lines, impl
+
+
 def main():
     chk = Check("C18", sys.argv[1:])
     chk.rule = ("random add/remove/kill-lookup histories on the real LocalControl (real N=65536 with >65536 arrivals and "
@@ -159,6 +215,11 @@ def main():
         lines, impl = history(chk, rng, ctl, n, f"ctl newn {n} 16 {sid}", nops, n + 2, f"N{n}")
         chk.case(("small", n, sid, tuple(lines)), nontrivial=("full" in impl) or impl.count("ok") > n,
                  sample=dict(n=n, server_id=sid, ops=lines[:12], impl=impl[:12]) if k < 2 else None)
+        all_lines += lines
+        all_impl += impl
+    for k in range(24 if not chk.thorough else 400):
+        sid = [0, 1, 65535, 70000][k % 4]
+        lines, impl = asyncio.run(server_history(chk, rng, sid, rng.choice([1, 2, 3, 5]), rng.randrange(6, 40)))
         all_lines += lines
         all_impl += impl
     model = drive(all_lines)
